@@ -252,6 +252,10 @@ retry_fetch_lv:
         if (traverse_endpoint == scan_endpoint::INCLUSIVE) {
             // not visit the border, so not call cb
             value* vp = lv_ptr->get_value();
+            if (vp == nullptr && lv_ptr->is_cleared()) {
+                // removed concurrently: remove does not change the node version.
+                goto retry_fetch_lv; // NOLINT
+            }
             auto* v_body = value::get_body(vp);
             node_version64_body final_check = target_border->get_stable_version();
             if (final_check.get_vsplit() != v_at_fb.get_vsplit() ||
